@@ -369,4 +369,6 @@ func report() {
 	core.Extra("c03/roundtrip", "constructors_hit", len(ctorSeen))
 }
 
-func TestReplay(t *testing.T) { core.Replay(t, valueCheck, focusCheck, abiCheck, dnsCheck) }
+func TestReplay(t *testing.T) {
+	core.Replay(t, valueCheck, focusCheck, abiCheck, dnsCheck, concurrentCheck)
+}
